@@ -46,6 +46,7 @@ def run(ctx):
     overflow(ctx, fb, 'C06.overflow')
     unsafe_inventory(ctx, fb, T)
     mut_unique(ctx, fb)
+    unchecked_offset(ctx, fb, T)
     import C07
     C07.dei(ctx, fb, 'C06.mut-unique-DEI')
 
@@ -233,3 +234,41 @@ def mut_unique(ctx, fb):
         aggs = [a for a in aggregates_of(fb, 'rten_tensor::iterators::LanesMut') if a[0].path == f.path]
         ok = bool(isb) and bool(aggs) and all(any(g.cond()[0] == 'call' and g.cond()[1].callee == isb[0].callee and g.truth() is False for g in f.guards(a[1])) for a in aggs)
         ctx.inst(R, 'LanesMut:not-broadcast', ok, 'LanesMut is constructed only after `!view.is_broadcast()` held (non-debug assert)', f.loc())
+
+
+
+def _then_some_valid(f, c):
+    """`self.index_valid(i).then_some(self.offset_unchecked(i))`: the unchecked offset is released only if the index is valid"""
+    for y in f.calls():
+        if re.search(r'::then_some$', y.callee or '') and len(y.args) == 2:
+            r1 = f.resolve_copy(y.args[1])
+            r0 = f.resolve_copy(y.args[0])
+            if r1[0] == 'call' and r1[1] is c and r0[0] == 'call' and (r0[1].callee or '').endswith('::index_valid'):
+                return True
+    return False
+
+
+def unchecked_offset(ctx, fb, T):
+    """who-may-call Layout::offset_unchecked (a *safe* function that skips the index check): every caller is an unsafe fn
+    (the obligation is its caller's), a forwarding offset_unchecked impl, guarded by a positive index_valid() test, or reviewed"""
+    R = 'C06.unchecked-offset'
+    rev = {e['fn']: e['reason'] for e in T.get('offset_unchecked_callers', [])}
+    n = 0
+    cnt = {}
+    for cr in ('rten_tensor', 'rten', 'rten_gemm', 'rten_imageproc', 'rten_vecmath', 'rten_text', 'rten_generate', 'rten_serialize'):
+        for f, c in callers_of(fb, 're:::offset_unchecked$', crates=[cr]):
+            n += 1
+            short = f.path.replace('rten_tensor::', '')[-70:]
+            cnt[short] = cnt.get(short, 0) + 1
+            key = 'caller:%s#%d' % (short, cnt[short])
+            if f.o.get('unsafe'):
+                ctx.inst(R, key, True, 'unsafe fn: the in-bounds obligation is stated for its callers (see C06.unsafe-inventory)', c.loc())
+            elif f.path.endswith('::offset_unchecked'):
+                ctx.inst(R, key, True, 'forwarding impl of offset_unchecked', c.loc())
+            elif guards_call(f, c.bb, 're:::index_valid$', truth=True) or _then_some_valid(f, c):
+                ctx.inst(R, key, True, 'result is used only under a positive index_valid() test', c.loc())
+            else:
+                r = rev.get(f.path)
+                ctx.inst(R, key, r is not None, ('reviewed: ' + r) if r else
+                         'safe function calls offset_unchecked without an index_valid() test: an out-of-range index yields an offset outside the view (or inside another view of the same storage)', c.loc())
+    ctx.floor(R, 'callers of offset_unchecked', n, 6)
